@@ -36,8 +36,9 @@ def dir_oid(files, prefix=()):
     return canonical_dir_oid(listing), listing
 
 
-def put_dir_object(odb, files, prefix=()):
-    """Write the canonical directory object for files below prefix into odb (through Tree)."""
+def put_dir_object(odb, files, prefix=(), with_meta=False, execs=()):
+    """Write the canonical directory object for files below prefix into odb (through Tree).
+    with_meta: the stored listing also carries per-file metadata (size, exec bit), as Tree.digest(with_meta=True) writes it."""
     from dvc_data.hashfile.hash_info import HashInfo
     from dvc_data.hashfile.meta import Meta
     from dvc_data.hashfile.tree import Tree
@@ -45,8 +46,8 @@ def put_dir_object(odb, files, prefix=()):
     t = Tree()
     for k, v in files.items():
         if k[: len(prefix)] == prefix:
-            t.add(k[len(prefix):], Meta(size=len(v)), HashInfo("md5", H("md5", v)))
-    t.digest()
+            t.add(k[len(prefix):], Meta(size=len(v), isexec=k in execs), HashInfo("md5", H("md5", v)))
+    t.digest(with_meta=with_meta)
     odb.add(t.path, t.fs, t.oid, hardlink=False)
     return t.oid
 
